@@ -146,6 +146,10 @@ bool ICMPExtensionsStructure::validate_extensions(const uint8_t* buffer, uint32_
     total_sz -= BASE_HEADER_SIZE;
     // Now do the checksum over the payload
     actual_checksum += Utils::sum_range(buffer, buffer + total_sz);
+    // Adding the two partial sums can carry: fold it back (one's complement addition)
+    while (actual_checksum >> 16) {
+        actual_checksum = (actual_checksum & 0xffff) + (actual_checksum >> 16);
+    }
     return checksum == static_cast<uint16_t>(~actual_checksum);
 }
 
